@@ -70,6 +70,16 @@ def observe(beacon, block):
             r = core.outcome(lambda: list(f2().items()))
             o2[k] = r[1] if r[0] == "ok" else ("exc", r[1])
         o["order_dependent"] = sorted(k for k in views if repr(o2[k]) != repr(o[k]))
+        # the list of indices handed out belongs to the caller: sorting or emptying it changes nothing about the configuration
+        try:
+            got = cfg.setting_enums
+            got.sort(reverse=True)
+            del got[:1]
+        except Exception:  # noqa: BLE001  (a read-only sequence is fine too)
+            pass
+        again = core.outcome(lambda: (list(cfg.setting_enums), cfg.max_setting_enum if o["setting_enums"] else None))
+        if again != ("ok", (o["setting_enums"], max(o["setting_enums"]) if o["setting_enums"] else None)):
+            o["order_dependent"].append("setting_enums_after_the_caller_edited_the_list")
         return o
 
     return core.guarded(go, seconds=5)
@@ -207,6 +217,11 @@ def run(ctx):
         tail = bytes(rng.randrange(1, 256) for _ in range(cont))
         blocks.append((rec(1, 1, b"\x00\x08") + rec(9, 3, bytes(rng.randrange(1, 256) for _ in range(128))) + tail + b"\x00" + b"\x00" * (1 if cont % 2 else 0)
                        + rec(2, 1, b"\x01\xbb") + rec(37, 2, b"\x00\x00\x00\x07") + b"\x00\x00", False))
+    # a terminator whose first byte is the last byte of a read-ahead buffer (offsets 8191, 16383, ...), followed by bytes that look like a record
+    for target in ([8191, 16383] if q else [8190, 8191, 8192, 16383, 24575, 65535]):
+        pre = rec(1, 1, b"\x00\x08") + rec(2, 1, b"\x01\xbb")
+        fill = target - len(pre) - 6
+        blocks.append((pre + rec(13, 3, bytes(rng.randrange(1, 256) for _ in range(fill))) + b"\x00\x00" + rec(5, 1, b"\x00\x07") + rec(3, 2, b"\x00\x00\x03\xe8") + b"\x00\x00", False))
     samples = ["4f571c0bc97c20eefc58fa3faf32148d.bin.zip", "a1573fe60c863ed40fffe54d377b393a.bin.zip", "5a197a8bb628a2555f5a86c51b85abd7.bin.zip"]
     for nm in samples[: 1 if q else 3]:
         try:
